@@ -103,4 +103,160 @@ def refSackEvent (ws : WVec) (earned : Option (Nat × Int)) : WVec :=
 /-- One NAK charged to link `k`. -/
 def refNakEvent (ws : WVec) (k : Nat) : WVec := applyAt refNak ws k
 
+/-! ## The reference as a state machine (round 3)
+
+The rules above, put together as ONE machine over an abstract event alphabet, so that a whole
+history can be replayed against it.  Still import-free, still no definition of the Rust model.
+
+State, per link (`RLink`): what `select_conn` and the window rules read —
+* `usable`  : `select_conn` does not skip the link (`last_rcvd + CONN_TIMEOUT >= t`); set by the
+              environment (`linkState`), never by a rule;
+* `live`    : `last_rcvd != 0` — the link gets the global `+1`; environment as well;
+* `window`, `inFlight` (`in_flight_pkts`: incremented by `reg_pkt` when a data packet is ROUTED to the
+  link, decremented by an earned SRTLA ACK / a charged NAK, recounted by a cumulative ACK);
+* `out`     : the outstanding sequence numbers of the link (the live entries of `pkt_log`).
+
+Events (`REv`):
+* `route seq?`               — `select_conn`; for a data packet (`seq? = some n`) `reg_pkt` on the chosen link
+                               (a control packet is sent but never registered: `if (sn >= 0) reg_pkt(c, sn)`);
+                               the machine OUTPUTS the chosen link;
+* `srtlaAck seqs onLink`     — one SRTLA ACK datagram that arrived on link `onLink`: per number, in datagram
+                               order, `register_srtla_ack`;
+* `nak seq remembered`       — `register_nak`;
+* `cumAck ack`               — cumulative SRT ACK: every link forgets the numbers at or below `ack`
+                               and recounts `in_flight_pkts`; no window moves;
+* `tick`                     — housekeeping: nothing (no time-based recovery);
+* `linkState i usable live`  — environment: link `i` was heard from / fell silent / timed out;
+* `linkReset i`              — environment: link `i` is torn down and starts over (window 20000, nothing
+                               outstanding, not usable, not live).
+
+Idealisations of `srtla_send.c` made here, all in the direction of the property texts C02 / C05 / C10
+(the C source is not part of the repository and was not consulted for this section; to the transcriber's
+knowledge it differs on each of these points; they are stated so that nobody has to guess):
+* `pkt_log` is a ring of 256 entries in C; here an unbounded duplicate-free list (C02: "the number of
+  distinct sequence numbers … not since been retired"), so `reg_pkt` of a number the link already holds
+  changes nothing;
+* a cumulative ACK retires the numbers "at or beyond" (C02), i.e. `≤ ack`; a charged NAK frees the
+  in-flight slot (C05);
+* which holder earns an SRTLA ACK when SEVERAL links hold the number: the arrival link if it holds it,
+  otherwise the first holder in list order (C02's wording; C scans in list order only — the two agree
+  whenever at most one link holds the number: `C10_sack_holder`);
+* which link is charged for a NAK: `remembered = none` is the reference's scan (first holder in list
+  order); `remembered = some k` is C05's "the sender still remembers which uplink carried the unique
+  copy": only link `k` can be charged, and only if it holds the number.
+-/
+
+/-- One link of the reference machine. -/
+structure RLink where
+  usable : Bool
+  live : Bool
+  window : Int
+  inFlight : Int
+  out : List Int
+deriving Repr, DecidableEq
+
+abbrev RState := List RLink
+
+/-- What `select_conn` reads of a machine link. -/
+def RLink.view (l : RLink) : RefLink :=
+  { timedOut := !l.usable, window := l.window, inFlight := l.inFlight }
+
+inductive REv where
+  | route (seq : Option Int)
+  | srtlaAck (seqs : List Int) (onLink : Nat)
+  | nak (seq : Int) (remembered : Option Nat)
+  | cumAck (ack : Int)
+  | tick
+  | linkState (i : Nat) (usable live : Bool)
+  | linkReset (i : Nat)
+deriving Repr, DecidableEq
+
+/-- Apply `f` to link `k` (out of range: nothing changes). -/
+def modifyAt (f : RLink → RLink) : RState → Nat → RState
+  | [], _ => []
+  | l :: rest, 0 => f l :: rest
+  | l :: rest, k + 1 => l :: modifyAt f rest k
+
+/-- `reg_pkt`: the number becomes outstanding on the link and is counted at once. -/
+def regPkt (seq : Int) (l : RLink) : RLink :=
+  if l.out.contains seq then l else { l with out := l.out ++ [seq], inFlight := l.inFlight + 1 }
+
+/-- First link, in list order, that holds the number. -/
+def firstHolder (st : RState) (seq : Int) : Option Nat := st.findIdx? fun l => l.out.contains seq
+
+/-- The link that earns an SRTLA ACK for `seq` arriving on `onLink`: the arrival link if it holds the
+number, otherwise the first holder in list order, if any. -/
+def holder (st : RState) (onLink : Nat) (seq : Int) : Option Nat :=
+  match st[onLink]? with
+  | some l => if l.out.contains seq then some onLink else firstHolder st seq
+  | none => firstHolder st seq
+
+/-- The earned part of `register_srtla_ack` on the holder: the number is retired, `in_flight_pkts--`,
+then `+29` iff `in_flight_pkts × 1000 > window` (the count AFTER the decrement). -/
+def earn (seq : Int) (l : RLink) : RLink :=
+  { l with out := l.out.filter (· != seq), inFlight := l.inFlight - 1,
+           window := refAck l.window (l.inFlight - 1) }
+
+/-- The `+1` every live link gets per SRTLA-acknowledged number. -/
+def globalInc (l : RLink) : RLink := if l.live then { l with window := refGlobal l.window } else l
+
+/-- `register_srtla_ack` for ONE number. -/
+def rSackOne (st : RState) (onLink : Nat) (seq : Int) : RState :=
+  let st1 := match holder st onLink seq with
+    | some k => modifyAt (earn seq) st k
+    | none => st
+  st1.map globalInc
+
+/-- The charge of a NAK on the link that held the number. -/
+def charge (seq : Int) (l : RLink) : RLink :=
+  { l with out := l.out.filter (· != seq), inFlight := l.inFlight - 1, window := refNak l.window }
+
+/-- The link `register_nak` charges. -/
+def nakTarget (st : RState) (seq : Int) (remembered : Option Nat) : Option Nat :=
+  match remembered with
+  | some k =>
+    match st[k]? with
+    | some l => if l.out.contains seq then some k else none
+    | none => none
+  | none => firstHolder st seq
+
+def rNak (st : RState) (seq : Int) (remembered : Option Nat) : RState :=
+  match nakTarget st seq remembered with
+  | some k => modifyAt (charge seq) st k
+  | none => st
+
+/-- Cumulative ACK on one link. -/
+def cumAckLink (ack : Int) (l : RLink) : RLink :=
+  let out := l.out.filter fun s => decide (s > ack)
+  { l with out := out, inFlight := (out.length : Int) }
+
+/-- A torn-down link. -/
+def resetLink (l : RLink) : RLink :=
+  { l with usable := false, live := false, window := 20000, inFlight := 0, out := [] }
+
+/-- One step of the reference machine: the next state and, for `route`, the chosen link. -/
+def rstep (st : RState) : REv → RState × Option Nat
+  | .route seq =>
+    match refSelect (st.map RLink.view) with
+    | some i =>
+      (match seq with
+        | some sq => modifyAt (regPkt sq) st i
+        | none => st, some i)
+    | none => (st, none)
+  | .srtlaAck seqs onLink => (seqs.foldl (fun s a => rSackOne s onLink a) st, none)
+  | .nak seq remembered => (rNak st seq remembered, none)
+  | .cumAck ack => (st.map (cumAckLink ack), none)
+  | .tick => (st.map fun l => { l with window := refTick l.window }, none)
+  | .linkState i usable live => (modifyAt (fun l => { l with usable := usable, live := live }) st i, none)
+  | .linkReset i => (modifyAt resetLink st i, none)
+
+/-- Run a list of events (final state only). -/
+def rrun (st : RState) (evs : List REv) : RState := evs.foldl (fun s e => (rstep s e).1) st
+
+/-- The window vector of a machine state, in the `WVec` form used above. -/
+def rWv (st : RState) : WVec := st.map fun l => (l.window, l.live)
+
+/-- The windows alone. -/
+def rWindows (st : RState) : List Int := st.map (·.window)
+
 end Srtla.Spec.ClassicRef
